@@ -1,5 +1,5 @@
 (* Props/C07.v — keep-alive requests are answered exactly once, and only they are. *)
-Require Import Base.Bytes Net.Frame Net.FrameProofs Net.Framed Net.FramedProofs Net.Concrete.
+Require Import Base.Bytes Net.Frame Net.FrameProofs Net.Framed Net.FramedProofs Net.Concrete Net.ConvProofs Net.Async Net.AsyncProofs Net.AsyncConvProofs.
 Local Open Scope N_scope.
 
 (* per decoded packet: the outgoing trace is either [pong; packet], [packet] or a version
@@ -35,3 +35,28 @@ Proof. intros. eapply proj1. apply session_frames; eassumption. Qed.
 (* the reply is the TINY_NONE frame of the connection's mode *)
 Theorem c07_pong_frames : pong_frame Compressed = [1; 3; 0; 0] /\ pong_frame Uncompressed = [4; 3; 0; 0].
 Proof. vm_compute. auto. Qed.
+
+(* conversations: the caller's write() calls (handshake() included: it is a write of the ISI) between its
+   read() calls do not change the keep-alive replies: what the reads of a conversation do is
+   the session of that many reads on the same transport — the connection has no state a write touches *)
+Theorem c07_caller_writes_do_not_matter :
+  forall (packet : Type) (parse : bytes -> res packet) (ver_of : packet -> option N)
+         (is_keepalive : packet -> bool) (version : N) (m : mode) (verify : bool) (pong : bytes),
+  forall ops buf tr,
+    map snd (filter (from_read packet) (conv packet parse ver_of is_keepalive version m verify pong ops buf tr))
+    = session packet parse ver_of is_keepalive version m verify pong (reads ops) buf tr.
+Proof. exact conv_reads. Qed.
+
+(* and on the tokio connection under dropped read() futures and caller writes in between (any schedule):
+   a keep-alive is returned only after its whole reply is on the wire, reply bytes are never written for
+   anything else, and a write() that finds a reply outstanding completes it before sending its own frame
+   (conv_ok: Net/AsyncConvProofs.v) *)
+Theorem c07_replies_whole_under_cancellation_and_writes :
+  forall (packet : Type) (parse : bytes -> res packet) (ver_of : packet -> option N)
+         (is_keepalive : packet -> bool) (version : N) (m : mode) (verify : bool) (pong : bytes),
+  forall fuel c s rs ws cancels wsched acc done,
+    forallb no_fail ws = true ->
+    Inv packet parse ver_of is_keepalive version m verify pong c s ->
+    WInv packet is_keepalive pong s (done ++ acc) ->
+    conv_ok packet is_keepalive pong done (aconv packet parse ver_of is_keepalive version m verify pong fuel c s rs ws cancels wsched acc).
+Proof. exact aconv_ok. Qed.
